@@ -237,3 +237,39 @@ func genOps(rng *lib.RNG, fs flowSpec, nsess, maxWrites, depth int) []op {
 	}
 	return ops
 }
+
+// insertReloads puts Agent.Unload / Unload→Load / Load (again) of random symbols, and process
+// restarts, at random points of a schedule: before the first request, with requests in flight,
+// between an answer and the next request, and (X, then more requests of the fresh process) after
+// a process has exited.
+func insertReloads(rng *lib.RNG, fs flowSpec, nsess int, ops []op) []op {
+	out := append([]op(nil), ops...)
+	for k := rng.Range(1, 3); k > 0; k-- {
+		pos := rng.Intn(len(out) + 1)
+		if rng.Chance(1, 4) {
+			pos = 0
+		}
+		n := rng.Intn(len(fs.nodes))
+		var ins []op
+		kinds := 5
+		if len(fs.indices("join")) > 0 {
+			// no process restart in join workflows: the schedule was drawn for the lock-step of the
+			// ManyToOne queues, which a fresh process would start from empty
+			kinds = 4
+		}
+		switch rng.Intn(kinds) {
+		case 0:
+			ins = []op{{kind: 'U', node: n}}
+		case 1:
+			ins = []op{{kind: 'U', node: n}, {kind: 'L', node: n}}
+		case 2:
+			ins = []op{{kind: 'L', node: n}}
+		case 3:
+			ins = []op{{kind: 'L', node: n}, {kind: 'L', node: n}}
+		default:
+			ins = []op{{kind: 'X', sess: rng.Intn(nsess)}}
+		}
+		out = append(out[:pos:pos], append(ins, out[pos:]...)...)
+	}
+	return out
+}
